@@ -76,7 +76,7 @@ async fn transfer_tcp(listener: TcpListener, current: ServerConfig<SslConfig>) {
 }
 
 async fn transfer_udp(socket: UdpSocket, current: ServerConfig<SslConfig>) {
-    if let (VMess, Err(e)) = (current.protocol, vmess::check_cipher(current.cipher)) {
+    if let (VMess, Err(e)) = (current.protocol, vmess::check_cipher(current.cipher).and_then(|_| vmess::check_id(&current.password))) {
         return error!("create client context failed; error={e}");
     }
     match (current.protocol, &current.ssl, &current.ws, &current.quic) {
